@@ -1008,3 +1008,71 @@ func orEdges(fs ...func(*ssa.BasicBlock, int) bool) func(*ssa.BasicBlock, int) b
 		return false
 	}
 }
+
+// flagEdgesImplying: branch edges on a boolean flag variable (a phi of constants true/false)
+// whose polarity can only come from assignments made behind a base edge: for `found := false;
+// for … { if c { found = true; break } }; if !found {…}` the edge !found implies the loop's
+// exhaustion edge.  An incoming constant counts when the phi edge that carries it is a base
+// edge itself or leaves a block that base cuts off from the entry.
+func flagEdgesImplying(fn *ssa.Function, base func(*ssa.BasicBlock, int) bool) func(*ssa.BasicBlock, int) bool {
+	type ek struct {
+		b *ssa.BasicBlock
+		k int
+	}
+	set := map[ek]bool{}
+	for _, b := range fn.Blocks {
+		iff, ok := b.Instrs[len(b.Instrs)-1].(*ssa.If)
+		if !ok {
+			continue
+		}
+		cond, neg := iff.Cond, false
+		for {
+			if u, ok := cond.(*ssa.UnOp); ok && u.Op == token.NOT {
+				cond, neg = u.X, !neg
+				continue
+			}
+			break
+		}
+		p, ok := cond.(*ssa.Phi)
+		if !ok || !isBoolType(p.Type()) {
+			continue
+		}
+		for _, pol := range []bool{true, false} {
+			okAll, n := true, 0
+			for _, e := range allPhiEdges(p) {
+				cst, isC := strip(e.val).(*ssa.Const)
+				if !isC || cst.Value == nil {
+					okAll = false
+					break
+				}
+				if (cst.Value.String() == "true") != pol {
+					continue
+				}
+				n++
+				covered := false
+				for k, s := range e.from.Succs {
+					if s == e.to && base(e.from, k) {
+						covered = true
+					}
+				}
+				if !covered {
+					site := e.from.Instrs[len(e.from.Instrs)-1]
+					if len(Query{Fn: fn, IsSite: func(in ssa.Instruction) bool { return in == site }, GenEdge: base}.Run()) == 0 {
+						covered = true
+					}
+				}
+				if !covered {
+					okAll = false
+				}
+			}
+			if okAll && n > 0 {
+				k := 0
+				if pol == neg {
+					k = 1
+				}
+				set[ek{b, k}] = true
+			}
+		}
+	}
+	return func(b *ssa.BasicBlock, k int) bool { return set[ek{b, k}] }
+}
